@@ -120,6 +120,25 @@ func New(w *world.World, m *hx.Session, rep *hx.Report, user, stream string) *H 
 }
 func (h *H) Close() { h.A.Close(); h.O.Close() }
 
+// NewReal is New without a model session: RealOp and RealDump only (the crash workload runs without the model).
+func NewReal(w *world.World, rep *hx.Report, user string) *H {
+	h := &H{W: w, User: user, Rep: rep, NextMsg: 1,
+		seenUID: map[string]map[int]int{}, maxUID: map[string]int{}, lastNext: map[string]int{}, incOf: map[string]int{}, incTime: map[string]string{}}
+	h.A = w.Login(user)
+	h.O = w.Login(user)
+	return h
+}
+
+// NewModelOnly is New for replaying ops on the model and comparing dumps taken by an observer login.
+func NewModelOnly(w *world.World, m *hx.Session, rep *hx.Report, user string) *H {
+	h := &H{W: w, User: user, M: m, Rep: rep, NextMsg: 1,
+		seenUID: map[string]map[int]int{}, maxUID: map[string]int{}, lastNext: map[string]int{}, incOf: map[string]int{}, incTime: map[string]string{}}
+	h.O = w.Login(user)
+	h.A = h.O
+	h.M.Ask("m.init 1")
+	return h
+}
+
 func (h *H) replay() []string {
 	o := []string{"newhist"}
 	for _, op := range h.Ops {
@@ -136,7 +155,12 @@ func (h *H) fail(kind, what string) {
 	h.Rep.Violate(kind, h.Stream, what, h.replay())
 }
 
-func Msg(id int) string {
+// MsgFn makes message number id; harnesses may replace it (the Subject must stay "m<id>": dumps identify messages by it).
+var MsgFn = plainMsg
+
+func Msg(id int) string { return MsgFn(id) }
+
+func plainMsg(id int) string {
 	return fmt.Sprintf("From: sender@example.org\r\nTo: rcpt@example.com\r\nSubject: m%d\r\nMessage-ID: <m%d@example.org>\r\nDate: Mon, 02 Jan 2006 15:04:05 +0000\r\n\r\nbody of message %d\r\n", id, id, id)
 }
 
@@ -210,21 +234,9 @@ func canonModelNotes(s string, withUID bool) string {
 func status(r world.Resp) string { return strings.ToLower(r.Status()) }
 
 // Do executes one op on the implementation and on the model and compares results and state.
-func (h *H) Do(op Op) {
-	if h.Failed {
-		return
-	}
-	h.Ops = append(h.Ops, op)
+// RealOp performs op on the implementation and returns its canonical answer.
+func (h *H) RealOp(op Op) (impl string) {
 	a := op.Args
-	var impl, mline string
-	mdl := func(l string) string {
-		r, err := h.M.Ask(l)
-		if err != nil {
-			h.fail("broken-correspondence", "model driver: "+err.Error())
-		}
-		return r
-	}
-	hl := func(xs []string) string { return hx.HList(xs) }
 	sel := func(box string) bool { return h.A.Cmd("SELECT " + box).OK() }
 	switch op.Kind {
 	case "append": // box msgid flags...
@@ -235,17 +247,12 @@ func (h *H) Do(op Op) {
 			impl = "ok " + m[2]
 			h.checkAppendUID(a[0], m[1], m[2], id)
 		}
-		mline = mdl("m.add " + hx.H(a[0]) + " " + a[1] + " " + hl(a[2:]))
 	case "deliver": // msgid
 		id, _ := strconv.Atoi(a[0])
 		_, data := h.W.Deliver("sender@example.org", []string{h.User}, Msg(id))
 		impl = "no"
 		if len(data) == 1 && strings.HasPrefix(data[0], "2") {
 			impl = "ok"
-		}
-		mline = mdl("m.add " + hx.H("INBOX") + " " + a[0] + " .")
-		if strings.HasPrefix(mline, "ok ") {
-			mline = "ok"
 		}
 	case "copy", "uidcopy": // src set dst
 		if !sel(a[0]) {
@@ -255,12 +262,10 @@ func (h *H) Do(op Op) {
 		} else {
 			impl = status(h.A.Cmd("UID COPY " + a[1] + " " + a[2]))
 		}
-		mline = mdl("m." + op.Kind + " " + hx.H(a[0]) + " " + hx.H(a[1]) + " " + hx.H(a[2]))
 	case "store", "uidstore": // box set mode silent flags...
 		uid := op.Kind == "uidstore"
 		item := map[string]string{"set": "FLAGS", "add": "+FLAGS", "del": "-FLAGS"}[a[2]]
-		silent := a[3] == "1"
-		if silent {
+		if a[3] == "1" {
 			item += ".SILENT"
 		}
 		if !sel(a[0]) {
@@ -273,15 +278,6 @@ func (h *H) Do(op Op) {
 			r := h.A.Cmd(pre + a[1] + " " + item + " (" + strings.Join(a[4:], " ") + ")")
 			impl = strings.TrimSpace(status(r) + " " + notes(r, uid))
 		}
-		mline = mdl("m." + op.Kind + " " + hx.H(a[0]) + " " + hx.H(a[1]) + " " + a[2] + " " + hl(a[4:]))
-		if strings.HasPrefix(mline, "ok") {
-			rest := strings.TrimSpace(strings.TrimPrefix(mline, "ok"))
-			if silent {
-				// .SILENT suppresses FETCH and EXPUNGE notices alike
-				rest = ""
-			}
-			mline = strings.TrimSpace("ok " + canonModelNotes(rest, uid))
-		}
 	case "expunge", "close": // box
 		if !sel(a[0]) {
 			impl = "no"
@@ -289,8 +285,6 @@ func (h *H) Do(op Op) {
 			r := h.A.Cmd(strings.ToUpper(op.Kind))
 			impl = strings.TrimSpace(status(r) + " " + notes(r, false))
 		}
-		mline = mdl("m." + op.Kind + " " + hx.H(a[0]))
-		mline = strings.TrimSpace(strings.ReplaceAll(expNotes(mline), " .", ""))
 	case "uidexpunge": // box set
 		if !sel(a[0]) {
 			impl = "no"
@@ -298,7 +292,6 @@ func (h *H) Do(op Op) {
 			r := h.A.Cmd("UID EXPUNGE " + a[1])
 			impl = strings.TrimSpace(status(r) + " " + notes(r, false))
 		}
-		mline = strings.TrimSpace(strings.ReplaceAll(expNotes(mdl("m.uidexpunge "+hx.H(a[0])+" "+hx.H(a[1]))), " .", ""))
 	case "xstore", "xuidstore", "xexpunge", "xuidexpunge", "xclose": // the same commands after EXAMINE: nothing may change
 		if !h.A.Cmd("EXAMINE " + a[0]).OK() {
 			impl = "no"
@@ -316,26 +309,86 @@ func (h *H) Do(op Op) {
 				impl = status(h.A.Cmd("CLOSE"))
 			}
 		}
-		mline = mdl("m.readonly " + op.Kind[1:] + " " + hx.H(a[0]))
 	case "create":
 		impl = status(h.A.Cmd("CREATE " + a[0]))
-		mline = mdl("m.create " + hx.H(a[0]) + " " + strconv.Itoa(len(h.Ops)+1))
 	case "delete":
 		impl = status(h.A.Cmd("DELETE " + a[0]))
-		mline = mdl("m.delete " + hx.H(a[0]))
 	case "rename":
 		impl = status(h.A.Cmd("RENAME " + a[0] + " " + a[1]))
-		mline = mdl("m.rename " + hx.H(a[0]) + " " + hx.H(a[1]) + " " + strconv.Itoa(len(h.Ops)+1))
 	case "sub":
 		impl = status(h.A.Cmd("SUBSCRIBE " + a[0]))
-		mline = mdl("m.sub " + hx.H(a[0]))
 	case "unsub":
 		impl = status(h.A.Cmd("UNSUBSCRIBE " + a[0]))
-		mline = mdl("m.unsub " + hx.H(a[0]))
 	default:
 		h.fail("broken-correspondence", "unknown op "+op.Kind)
+	}
+	return impl
+}
+
+// ModelOp performs op (the nth of the history, counted from 1) on the Lean model and returns its canonical answer.
+func (h *H) ModelOp(op Op, nth int) (mline string) {
+	a := op.Args
+	mdl := func(l string) string {
+		r, err := h.M.Ask(l)
+		if err != nil {
+			h.fail("broken-correspondence", "model driver: "+err.Error())
+		}
+		return r
+	}
+	hl := func(xs []string) string { return hx.HList(xs) }
+	switch op.Kind {
+	case "append":
+		mline = mdl("m.add " + hx.H(a[0]) + " " + a[1] + " " + hl(a[2:]))
+	case "deliver":
+		mline = mdl("m.add " + hx.H("INBOX") + " " + a[0] + " .")
+		if strings.HasPrefix(mline, "ok ") {
+			mline = "ok"
+		}
+	case "copy", "uidcopy":
+		mline = mdl("m." + op.Kind + " " + hx.H(a[0]) + " " + hx.H(a[1]) + " " + hx.H(a[2]))
+	case "store", "uidstore":
+		uid := op.Kind == "uidstore"
+		silent := a[3] == "1"
+		mline = mdl("m." + op.Kind + " " + hx.H(a[0]) + " " + hx.H(a[1]) + " " + a[2] + " " + hl(a[4:]))
+		if strings.HasPrefix(mline, "ok") {
+			rest := strings.TrimSpace(strings.TrimPrefix(mline, "ok"))
+			if silent {
+				// .SILENT suppresses FETCH and EXPUNGE notices alike
+				rest = ""
+			}
+			mline = strings.TrimSpace("ok " + canonModelNotes(rest, uid))
+		}
+	case "expunge", "close":
+		mline = mdl("m." + op.Kind + " " + hx.H(a[0]))
+		mline = strings.TrimSpace(strings.ReplaceAll(expNotes(mline), " .", ""))
+	case "uidexpunge":
+		mline = strings.TrimSpace(strings.ReplaceAll(expNotes(mdl("m.uidexpunge "+hx.H(a[0])+" "+hx.H(a[1]))), " .", ""))
+	case "xstore", "xuidstore", "xexpunge", "xuidexpunge", "xclose":
+		mline = mdl("m.readonly " + op.Kind[1:] + " " + hx.H(a[0]))
+	case "create":
+		mline = mdl("m.create " + hx.H(a[0]) + " " + strconv.Itoa(nth+1))
+	case "delete":
+		mline = mdl("m.delete " + hx.H(a[0]))
+	case "rename":
+		mline = mdl("m.rename " + hx.H(a[0]) + " " + hx.H(a[1]) + " " + strconv.Itoa(nth+1))
+	case "sub":
+		mline = mdl("m.sub " + hx.H(a[0]))
+	case "unsub":
+		mline = mdl("m.unsub " + hx.H(a[0]))
+	}
+	return mline
+}
+
+func (h *H) Do(op Op) {
+	if h.Failed {
 		return
 	}
+	h.Ops = append(h.Ops, op)
+	impl := h.RealOp(op)
+	if h.Failed {
+		return
+	}
+	mline := h.ModelOp(op, len(h.Ops))
 	h.Rep.Hit("op:" + op.Kind)
 	h.Rep.Hit("op:" + op.Kind + ":" + strings.Fields(impl + " x")[0])
 	if strings.HasPrefix(op.Kind, "x") && h.Prev != nil {
